@@ -22,6 +22,7 @@ type Obligation struct {
 	Goal   Term
 	PC     []Term
 	Trace  []string
+	Taint  string // the path went through a place where the contract did not fit the code (see State.taint)
 	Expect string // "unsat" (proof obligation) or "sat" (reachability)
 	Timeout int   // per-obligation solver timeout override (s); 0 = tier default
 	PrePC   []Term // reach checks after a call: path condition before the call (a path that was already dead is not vacuity introduced by the callee's contract)
@@ -63,6 +64,8 @@ type Exec struct {
 	recs        []*recorder
 	muted       int
 	loopsNoInv  int
+	inheritedLoops map[string]bool // loop contracts of the function under contract used by an inlined helper's loop
+	noInvLoops  map[string]bool // loops (also of inlined callees) met without a loop contract
 	loopHeapMods map[string][]string
 	epochN      int
 	prune       bool
@@ -231,7 +234,7 @@ func (x *Exec) oblige(st *State, kind, label, anchor string, goal Term, pos toke
 		name += "@" + anchor
 	}
 	ob := &Obligation{Name: name, Func: x.fnName, Kind: kind, Label: label, Anchor: anchor,
-		Pos: x.pos(pos), Goal: goal, PC: append([]Term(nil), st.pc...), Trace: append([]string(nil), st.trace...), Expect: "unsat"}
+		Pos: x.pos(pos), Goal: goal, PC: append([]Term(nil), st.pc...), Trace: append([]string(nil), st.trace...), Expect: "unsat", Taint: st.taint}
 	x.obls = append(x.obls, ob)
 	// carved clauses (label with @case) isolate recorded defects: they are
 	// checked but never assumed, so a failing one cannot make later
@@ -339,7 +342,9 @@ func (x *Exec) loadLoc(st *State, l *Loc, h map[string]Term, why string) Value {
 	switch {
 	case l.Cell != nil:
 		v, ok := st.cells[l.Cell]
-		if !ok {
+		if !ok && l.Cell.global != nil {
+			v = x.globalValue(st, l.Cell)
+		} else if !ok {
 			v = Value{T: x.zero(l.Cell.typ), Typ: l.Cell.typ}
 		}
 		if len(l.Path) == 0 {
@@ -432,4 +437,21 @@ func (x *Exec) fnTerm(f *FnVal) Term {
 
 func sortedObls(obls []*Obligation) {
 	sort.SliceStable(obls, func(i, j int) bool { return obls[i].Name < obls[j].Name })
+}
+
+// globalValue: a package-level variable that this path has not written. A
+// variable only ever written by its initialiser is a constant of the program
+// (one symbol per variable; non-nil when it holds errors.New/fmt.Errorf);
+// any other variable may have been written by anyone: every read is arbitrary.
+func (x *Exec) globalValue(st *State, c *Cell) Value {
+	gi := x.w.globalInfoOf(c.global)
+	if !gi.initOnly {
+		return x.freshValue(st, "global."+c.name, c.typ)
+	}
+	name := "globalconst$" + strings.NewReplacer("/", "_", ".", "_").Replace(c.global.Pkg.Pkg.Path()) + "$" + c.name
+	v := Value{T: x.decls.Const(name, x.sortOf(c.typ)), Typ: c.typ}
+	if gi.nonNil && x.sortOf(c.typ) == "Iface" {
+		st.assume(Not(Eq(iTag(v.T), IntLit(0))))
+	}
+	return v
 }
